@@ -119,7 +119,7 @@ theorem value?_eq_some_iff {f : Forest} (nd : f.allHandles.Nodup) (x : Nat) (v :
     obtain ⟨path, l, k, r, he, hk, hw⟩ := exists_plug_of_mem_hv x v f.roots hm
     rw [value?_of_loc ⟨he, hk⟩ nd, hw]
 
-theorem isLive_iff_mem {f : Forest} (nd : f.allHandles.Nodup) (x : Nat) :
+theorem fi_isLive_iff_mem {f : Forest} (nd : f.allHandles.Nodup) (x : Nat) :
     f.isLive x = true ↔ x ∈ f.allHandles := by
   constructor
   · exact mem_allHandles_of_isLive
